@@ -85,6 +85,16 @@ def distinct_classes(*elems):
     return out
 
 
+def homonyms(doc):
+    """finding predicate K25: the tree has two distinct, unequal object classes with the same __name__"""
+    try:
+        _, classes = dslgen.build(doc)
+    except BaseException:  # noqa
+        return False
+    cs = list(classes.values())
+    return any(a is not b and a.__name__ == b.__name__ and (a == b) is not True for i, a in enumerate(cs) for b in cs[i + 1:])
+
+
 TEMPLATES = [
     # renamed property + required; explicit required list next to properties; inherited class; shared class
     {"classes": {"Base": {"k": "Obj", "name": "Base", "base": None, "doc": None, "kw": {"required": ["extra"]},
@@ -108,7 +118,14 @@ TEMPLATES.append(
      "order": ["Billing", "Shipping"], "root": {"k": "Element", "kw": {"properties": {
          "a": {"e": {"k": "Ref", "name": "Billing"}, "required": False, "source": None},
          "b": {"e": {"k": "Ref", "name": "Shipping"}, "required": False, "source": None}}}}})
-TEMPLATE_VALUES = [[{"class": "c", "n": 1, "extra": 0}], [{"class": "c", "extra": 0, "p 1": {"class": "d", "extra": 1}}, {"class": "c", "extra": 1}, {"class": "e", "extra": 2}],
+TEMPLATES.append(
+    # recorded finding K25: two DISTINCT classes with the same __name__ (constructible in the DSL) share one definitions entry
+    {"classes": {"Foo": {"k": "Obj", "name": "Foo", "base": None, "doc": None, "kw": {}, "props": {
+        "a": {"e": {"k": "String", "kw": {}}, "required": False, "source": None}}},
+        "Foo2": {"k": "Obj", "name": "Foo2", "pyname": "Foo", "base": None, "doc": None, "kw": {}, "props": {
+            "a": {"e": {"k": "Integer", "kw": {}}, "required": False, "source": None}}}},
+     "order": ["Foo", "Foo2"], "root": {"k": "Array", "items": [{"k": "Ref", "name": "Foo"}, {"k": "Ref", "name": "Foo2"}], "kw": {"additionalItems": False}}})
+TEMPLATE_VALUES = [[{"a": "x"}, {"a": 1}], [{"a": 1}, {"a": 1}], [{"class": "c", "n": 1, "extra": 0}], [{"class": "c", "extra": 0, "p 1": {"class": "d", "extra": 1}}, {"class": "c", "extra": 1}, {"class": "e", "extra": 2}],
                    [{"class_": "c", "extra": 0}], {"x": 1, "class": "c", "y": 2}, {"class": "c", "y": 2}, {"x": 1, "y": 2}, {"x": 1, "class_": "c", "y": 2},
                    {"x": 1}, {}, [{"class": "c", "extra": 0, "zzz": 1}]]
 
@@ -131,6 +148,15 @@ def run(tier, seed, replay=None):
                 d["classes"][src + "Twin"] = twin
                 d["order"].append(src + "Twin")
                 d["root"] = {"k": "Array", "items": [d["root"], {"k": "Ref", "name": src}, {"k": "Ref", "name": src + "Twin"}], "kw": {}}
+            elif d["order"] and rng.random() < 0.1:       # a homonym: another, different class with the same __name__ (finding K25)
+                src = rng.choice(d["order"])
+                other = copy.deepcopy(d["classes"][src])
+                other["name"], other["pyname"] = src + "H", src
+                other["kw"] = dict(other["kw"], minProperties=1 + int(other["kw"].get("minProperties", 0) or 0))
+                d["classes"][src + "H"] = other
+                d["order"].append(src + "H")
+                d["root"] = {"k": "Array", "items": [d["root"], {"k": "Ref", "name": src + "H"}, {"k": "Ref", "name": src}], "kw": {}}
+                stats["homonym_docs"] = stats.get("homonym_docs", 0) + 1
             docs.append(d)
     ser_cases, ser_meta, doc_cases, doc_meta, all_docs = [], [], [], [], []
     for di, doc in enumerate(docs):
@@ -237,7 +263,9 @@ def run(tier, seed, replay=None):
                 pass
         # 4. the model serializer on the same tree
         try:
-            others = [c for c in distinct_classes(*roots) if c is not roots[0]]
+            # the collection as serialize_json iterates it (repeats included: with two classes of one name the LAST occurrence wins)
+            from statham.serializers.orderer import get_object_classes
+            others = [c for c in get_object_classes(*roots) if c is not roots[0]]
             ser_cases.append("((%s : list (str * elem)), %s, (%s : list elem), %s)" % (
                 cq_list(["(%s, %s)" % (cq_str(k), cq_elem(e)) for k, e in (defs or {}).items()]),
                 cq_elem(roots[0]), cq_list([cq_elem(c) for c in others]), cq_json(J2)))
@@ -267,7 +295,7 @@ def run(tier, seed, replay=None):
     codes, err = sc.eval_codes(["Elem", "Validate", "SerJson", "RunSer"], "run_doc_case", doc_cases, tag="c03d", shard=60)
     for i, cs in sorted((codes or {}).items()):
         d0, J, judged = doc_meta[i]
-        res.violation({"property": "C03", "kind": "oracle-in-coq", "doc": d0, "document": J, "values": judged,
+        res.violation({"property": "C03", "kind": "oracle-in-coq", "doc": d0, "document": J, "values": judged, "finding": "C03-K25" if homonyms(d0) else None,
                        "what": "the serialized document, read as Draft 6 (Spec6.v, documented deviations), does not accept exactly what the element accepts"})
     codes2, err2 = sc.eval_codes(["Elem", "Validate", "SerJson", "RunSer"], "run_ser_case", ser_cases, tag="c03s", shard=60)
     res.corr_error = err or err2
